@@ -6,6 +6,7 @@ ordered [true, false] (clang convention), also for the short-circuit operators, 
 (not counted as an exit) at a call of a terminating callee (throw_exp, messageAbort, exit, abort)
 and at blocks clang marks no-return.
 """
+import re
 from collections import deque
 
 from facts import CALL_KINDS, show, walk, AnalysisBroken
@@ -175,6 +176,14 @@ class CFG:
                     return None
             elif k == "OpCall" and x.get("op") in ("==", "!=") and len(x.get("c") or []) == 2:
                 pass          # comparison of enum-like objects (operator== of the AEnum classes): pure
+            elif k == "MCall" and x.get("cconst") and len(x.get("c") or []) == 1 and (x["c"][0] is None or x["c"][0]["k"] == "This") and \
+                    (x.get("callee") or "").split("::")[-1].startswith(("get", "is", "has")):
+                # const getter of `this` without argument: stable as long as the function calls no setter of that attribute
+                stem = re.sub(r"^(get|is|has)", "", x["callee"].split("::")[-1])
+                if any(c.get("callee") and c["callee"].split("::")[-1] in ("set" + stem, "_set" + stem) for c in self.f.calls()):
+                    return None
+            elif k == "This":
+                pass
             elif k == "DeclRefExpr":
                 pass
             else:
